@@ -247,10 +247,71 @@ def _class_mutates(cls, names):
     return hit
 
 
+SYS_BASES = COMP_BASES | {"Group"}
+CONTAINER_CALLS = ("dict", "list", "set", "defaultdict", "OrderedDict", "deque")
+
+
+def _is_system(cls):
+    for b in cls.bases:
+        n = b.attr if isinstance(b, ast.Attribute) else getattr(b, "id", "")
+        if n in SYS_BASES:
+            return True
+    return False
+
+
+def setup_stateful(cls):
+    """Instance containers that survive a second Problem.setup(): bound to a fresh container in __init__ / initialize
+    (which run once per instance) and mutated - append, update, X[k] = v, += - by setup / configure or a method they call,
+    without being re-bound there.  Such a system's second set-up starts from what the first one left behind."""
+    methods = {n.name: n for n in cls.body if isinstance(n, ast.FunctionDef)}
+
+    def closure(start):
+        seen, todo = set(), [m for m in start if m in methods]
+        while todo:
+            m = todo.pop()
+            if m in seen:
+                continue
+            seen.add(m)
+            for n in ast.walk(methods[m]):
+                if isinstance(n, ast.Call) and isinstance(n.func, ast.Attribute) and isinstance(n.func.value, ast.Name) and n.func.value.id == "self" and n.func.attr in methods:
+                    todo.append(n.func.attr)
+        return seen
+
+    created = set()
+    for m in closure(["__init__", "initialize"]):
+        for n in ast.walk(methods[m]):
+            if isinstance(n, ast.Assign):
+                v = n.value
+                fresh = isinstance(v, (ast.Dict, ast.List, ast.Set)) or (isinstance(v, ast.Call) and (v.func.id if isinstance(v.func, ast.Name) else getattr(v.func, "attr", "")) in CONTAINER_CALLS)
+                if fresh:
+                    for t in n.targets:
+                        if isinstance(t, ast.Attribute) and isinstance(t.value, ast.Name) and t.value.id == "self":
+                            created.add(t.attr)
+    if not created:
+        return []
+    mutated, rebound = set(), set()
+    for m in closure(["setup", "configure"]):
+        for n in ast.walk(methods[m]):
+            tgts = n.targets if isinstance(n, (ast.Assign, ast.Delete)) else [n.target] if isinstance(n, ast.AugAssign) else []
+            for t in tgts:
+                if isinstance(t, ast.Attribute) and isinstance(t.value, ast.Name) and t.value.id == "self" and t.attr in created:
+                    (mutated if isinstance(n, ast.AugAssign) else rebound).add(t.attr)
+                elif isinstance(t, ast.Subscript):
+                    a = _self_attr(t)
+                    if a in created:
+                        mutated.add(a)
+            if isinstance(n, ast.Call) and isinstance(n.func, ast.Attribute) and n.func.attr in MUTATORS:
+                a = _self_attr(n.func.value) if not (isinstance(n.func.value, ast.Attribute) and isinstance(n.func.value.value, ast.Name) and n.func.value.value.id == "self") else n.func.value.attr
+                if a in created:
+                    mutated.add(a)
+    return sorted(mutated - rebound)
+
+
 def extract(repo=REPO):
     root = os.path.join(repo, "openaerostruct")
     table = []
     globs = {}
+    stateful = {}
     for dp, dn, fn in os.walk(root):
         if any(x in dp for x in ("tests", "docs", "examples")):
             continue
@@ -269,12 +330,16 @@ def extract(repo=REPO):
                 globs[rel] = sorted(g.globals_written)
             cont = _module_containers(tree)
             for n in ast.walk(tree):
+                if isinstance(n, ast.ClassDef) and _is_system(n):
+                    st = setup_stateful(n)
+                    if st:
+                        stateful[n.name] = st
                 if isinstance(n, ast.ClassDef) and _is_component(n):
                     rec = _scan_class(n, rel)
                     # module-level mutable containers that the component's methods write: state shared between instances
                     rec["shared"] = sorted(set(rec["shared"]) | _class_mutates(n, cont))
                     table.append(rec)
-    return {"components": table, "module_globals_written": globs}
+    return {"components": table, "module_globals_written": globs, "setup_stateful": stateful}
 
 
 def to_tla(tab):
@@ -352,5 +417,6 @@ def to_tla(tab):
     lines.append("GuardedRefactor == " + sset(guarded) + "      \\* solve_nonlinear refreshes the factorization only if a guard on instance attributes fires")
     lines.append("GuardSeesApply == " + sset(g_apply) + "       \\* ... and residual evaluation (apply_nonlinear) overwrites an attribute the guard reads")
     lines.append("GuardSeesLinearize == " + sset(g_lin) + "   \\* ... and linearize overwrites an attribute the guard reads")
+    lines.append("SetupStateful == " + sset(sorted(tab.get("setup_stateful", {}))) + "   \\* systems whose setup() adds to an instance container created once per instance (a second Problem.setup() starts from the leftovers)")
     lines.append("=============================================================================")
     return "\n".join(lines) + "\n"
